@@ -179,6 +179,13 @@ hwloc_synthetic_process_indexes(struct hwloc_synthetic_backend_data_s *data,
 	  free(loops);
 	  goto out_with_array;
 	}
+	if (nb > total / nbs) {
+	  /* the loops would cover more than total objects (and nbs could overflow) */
+	  if (verbose)
+	    fprintf(stderr, "Invalid interleaving loop with too many iterations at '%s'\n", tmp2);
+	  free(loops);
+	  goto out_with_array;
+	}
 	loops[cur_loop].step = step;
 	loops[cur_loop].nb = nb;
 	if (step < minstep)
